@@ -318,7 +318,11 @@ class RDFWriter(object):
 
             # Ignore "id" and empty values, but make sure the content of "value"
             # is only accessed via its non deprecated property "values".
-            if k == "id" or not curr_val:
+            # A numeric zero (e.g. an uncertainty of 0) is a set value.
+            is_zero = isinstance(curr_val, (int, float)) and \
+                not isinstance(curr_val, bool) and curr_val == 0
+
+            if k == "id" or (not curr_val and not is_zero):
                 continue
 
             if k == "value":
